@@ -41,6 +41,12 @@ fn session_ops(p: &mut Prng, pfx: &str, signer: &str, gen_key_by_lib: bool) -> (
         ops.push(set(&s("id"), i));
     }
     ops.push(set(&s("msg"), &msg));
+    // history across operations: the same key pair first encrypts and decrypts something
+    if !gen_key_by_lib && p.chance(1, 5) {
+        ops.push(set(&s("emsg"), &p.bytes(20)));
+        ops.push(json!({"op":"sm2.encrypt","impl":"lib","pk":s("pk"),"msg":s("emsg"),"ct":s("ect"),"order":"C1C3C2","comp":false,"d":s("d"),"rng":rng_json(&uniform_script(p, 1))}));
+        ops.push(json!({"op":"sm2.decrypt","impl":"lib","d":s("d"),"ct":s("ect"),"order":"C1C3C2","comp":false}));
+    }
     let idref: Value = if id.is_some() { json!(s("id")) } else { Value::Null };
     ops.push(json!({"op":"sm2.sign","impl":signer,"d":s("d"),"id":idref,"msg":s("msg"),"sig":s("sig"),"rng":rng_json(&classy_script(p, &n))}));
     (ops, Sess { pfx: pfx.to_string(), d, id, msg })
@@ -59,6 +65,25 @@ pub fn run_c03(p: &mut Prng, _t: Tier, i: usize, sink: &mut Sink) {
     if i == 0 {
         annex_sign_session(&mut w);
         openssl_signatures(&mut w);
+    }
+    if i == 1 {
+        // very large inputs: messages around 2^16 and of 2^20 bytes, identities at the ENTL limit,
+        // message equal to the identity
+        let n = n_sm2();
+        let (d, _) = scalar_class(p, &n);
+        w.exec(set("big.d", &be32(&d)));
+        w.exec(json!({"op":"sm2.derive_pk","impl":"lib","d":"big.d","pk":"big.pk","comp":false}));
+        for (k, (mlen, idlen)) in [(65535usize, 16usize), (65536, 8191), (65537, 8190), (70000, 1), (1 << 20, 100), (8191, 8191)].iter().enumerate() {
+            let id = ascii(p, *idlen);
+            w.exec(set("big.id", &id));
+            let msg = if k == 5 { id.clone() } else { p.bytes(*mlen) };
+            w.exec(set("big.msg", &msg));
+            for signer in ["lib", "ref"] {
+                w.exec(json!({"op":"sm2.sign","impl":signer,"d":"big.d","id":"big.id","msg":"big.msg","sig":"big.sig","rng":rng_json(&uniform_script(p, 1))}));
+                w.exec(verify_op("big", true, "new"));
+            }
+        }
+        w.bump("history.very-large-inputs");
     }
     let nsess = p.range(1, 4);
     let mut queues = vec![];
